@@ -85,6 +85,19 @@ pub fn scenario(g: &mut G, ctx: &RunCtx) -> RunReport {
         plan.tls = true;
         g.probe("over-tls");
     }
+    // (no draw) ... half of these through a CONNECT tunnel (the library keeps a buffer of its own between the
+    // proxy's reply and the TLS layer there)
+    if plan.tls && plan.payload.len() % 2 == 0 {
+        plan.tunnel = true;
+        g.probe("over-tls-through-a-tunnel");
+    }
+    // (no draw) a Content-Type with a charset label says how to read text, not when: send() returns at the blank line
+    // (plans read through the text reader keep their own, single-byte charsets: there every octet is a character)
+    if plan.payload.len() % 4 == 1 && !plan.via_text_reader {
+        let label = ["text/plain; charset=utf-16", "text/html; charset=UTF-16", "text/plain; charset=utf-8", "text/plain; charset=utf-16le", "application/json; charset=utf-16be"][(plan.payload.len() / 4) % 5];
+        plan.insert_head_field("Content-Type", label);
+        g.probe("content-type-with-a-charset-label");
+    }
     // the streaming text reader (only drawn for ASCII payloads, where no character is ever incomplete)
     // is one more way to read the body: it must hand out what has arrived, too
     plan.read_timeout_ms = 3_600_000;
